@@ -168,4 +168,15 @@ CHECKS = {
             R("TestC14_TwoIntegrations", 480, 16000, shards=16),
         ],
     ),
+    "C11": dict(
+        level="exploration",
+        rule=("FullPath: rapid draws a declaration (log-indexing with an event of mixed indexed/non-indexed, selected/unselected inputs in any order incl. unselected indexed inputs before selected ones and all-indexed events whose logs carry no data; or transaction-/trace-indexing) with a random subset of ALL selectable fields in shuffled column order, a 1-3 block chain of generated contents "
+              "(integer patterns 0, 1, all-ones, sign bit, max signed, alternating bits, random, for every width 8..256), runs simulated node -> jrpc2 client -> Converge -> COPY -> fake Postgres and compares every stored cell, decoded by its column type, with the model value of that field of that item. "
+              "Insert: the row builder alone with a capturing connection, values rendered as pgx would store them (driver.Valuer -> decimal), per selected input and for log_idx/abi_idx/block_num/tx_idx. non-trivial = an unselected input precedes a selected one, or a negative signed value occurs, or >= 6 block-level fields in shuffled order."),
+        assumptions=["indexed inputs are static elementary types (the topic is the value)", "documented column types are used (uintN/intN -> numeric, address/bytes/bytesN -> bytea, bool -> bool, string -> text)"],
+        units=[
+            R("TestC11_FullPath", 2400, 60000, shards=16),
+            R("TestC11_Insert", 30000, 1000000, shards=8),
+        ],
+    ),
 }
